@@ -380,6 +380,8 @@ pub struct PrintOpts {
     pub layout: u32,
     /// CRLF line ends
     pub crlf: bool,
+    /// line breaks after `(`, `[` and `,` inside call arguments, lists and tuples
+    pub break_brackets: bool,
 }
 
 pub struct Printed {
@@ -691,12 +693,17 @@ impl Printer {
                 let style = if args.is_empty() && matches!(style, CallStyle::Arrow | CallStyle::ArrowPrime) { CallStyle::Paren } else { *style };
                 match style {
                     CallStyle::Paren => {
-                        let a = args.iter().map(|x| self.expr(x, 0)).collect::<Vec<_>>().join(", ");
-                        (format!("{}({})", self.expr(f, 8), a), 8)
+                        if self.opts.break_brackets && !args.is_empty() {
+                            let a = args.iter().map(|x| self.expr(x, 0)).collect::<Vec<_>>().join(",\n");
+                            (format!("{}(\n{}\n)", self.expr(f, 8), a), 8)
+                        } else {
+                            let a = args.iter().map(|x| self.expr(x, 0)).collect::<Vec<_>>().join(", ");
+                            (format!("{}({})", self.expr(f, 8), a), 8)
+                        }
                     }
                     CallStyle::Prime => {
                         // a prime call absorbs everything up to the end of the line: always wrapped
-                        let a = args.iter().map(|x| self.expr(x, 1)).collect::<Vec<_>>().join(", ");
+                        let a = args.iter().map(|x| self.expr(x, if matches!(x, Expr::Un(..)) { 8 } else { 1 })).collect::<Vec<_>>().join(", ");
                         if a.is_empty() {
                             (format!("{}'", self.expr(f, 8)), 8)
                         } else {
@@ -708,7 +715,7 @@ impl Printer {
                         (format!("({} -> {}({}))", self.expr(&args[0], 8), self.expr(f, 8), a), 9)
                     }
                     CallStyle::ArrowPrime => {
-                        let a = args[1..].iter().map(|x| self.expr(x, 1)).collect::<Vec<_>>().join(", ");
+                        let a = args[1..].iter().map(|x| self.expr(x, if matches!(x, Expr::Un(..)) { 8 } else { 1 })).collect::<Vec<_>>().join(", ");
                         if a.is_empty() {
                             (format!("({} -> {}')", self.expr(&args[0], 8), self.expr(f, 8)), 9)
                         } else {
@@ -718,14 +725,23 @@ impl Printer {
                 }
             }
             Expr::Tuple(xs) => {
-                let a = xs.iter().map(|x| self.expr(x, 0)).collect::<Vec<_>>().join(", ");
+                let sep = if self.opts.break_brackets && xs.len() > 1 { ",\n" } else { ", " };
+                let a = xs.iter().map(|x| self.expr(x, 0)).collect::<Vec<_>>().join(sep);
                 if xs.len() == 1 {
                     (format!("({},)", a), 9)
+                } else if self.opts.break_brackets && xs.len() > 1 {
+                    (format!("(\n{}\n)", a), 9)
                 } else {
                     (format!("({})", a), 9)
                 }
             }
-            Expr::List(xs) => (format!("[{}]", xs.iter().map(|x| self.expr(x, 0)).collect::<Vec<_>>().join(", ")), 9),
+            Expr::List(xs) => {
+                if self.opts.break_brackets && !xs.is_empty() {
+                    (format!("[\n{},\n]", xs.iter().map(|x| self.expr(x, 0)).collect::<Vec<_>>().join(",\n")), 9)
+                } else {
+                    (format!("[{}]", xs.iter().map(|x| self.expr(x, 0)).collect::<Vec<_>>().join(", ")), 9)
+                }
+            }
             Expr::Index(a, i) => (format!("{}[{}]", self.expr(a, 8), i), 8),
             Expr::Field(a, f) => (format!("{}.{}", self.expr(a, 8), f), 8),
             Expr::Blob(n, fs) => {
@@ -766,4 +782,83 @@ pub fn print_program(p: &Program) -> Printed {
 
 pub fn print_with(p: &Program, opts: PrintOpts) -> Printed {
     Printer::new(opts).program(p)
+}
+
+/// assigns call styles to the call sites of a program in print order; sites beyond the list keep Paren
+pub fn restyle(p: &mut Program, styles: &[CallStyle]) -> usize {
+    let mut n = 0usize;
+    fn ex(e: &mut Expr, styles: &[CallStyle], n: &mut usize) {
+        match e {
+            Expr::Call(f, args, style) => {
+                let i = *n;
+                *n += 1;
+                if let Some(st) = styles.get(i) {
+                    let legal = match st {
+                        CallStyle::Arrow | CallStyle::ArrowPrime => !args.is_empty(),
+                        _ => true,
+                    };
+                    // a prime call as the callee of another call or as a field-access receiver binds differently: keep Paren there
+                    *style = if legal { *st } else if matches!(st, CallStyle::ArrowPrime) { CallStyle::Prime } else { CallStyle::Paren };
+                }
+                ex(f, styles, n);
+                for a in args.iter_mut() {
+                    ex(a, styles, n);
+                }
+            }
+            Expr::Bin(_, a, b) => {
+                ex(a, styles, n);
+                ex(b, styles, n);
+            }
+            Expr::Un(_, a) | Expr::Paren(a) | Expr::Index(a, _) | Expr::Field(a, _) => ex(a, styles, n),
+            Expr::Tuple(xs) | Expr::List(xs) => xs.iter_mut().for_each(|x| ex(x, styles, n)),
+            Expr::Blob(_, fs) => fs.iter_mut().for_each(|(_, x)| ex(x, styles, n)),
+            Expr::Variant(_, _, Some(x)) => ex(x, styles, n),
+            Expr::If(bs, el) => {
+                for (c, b) in bs.iter_mut() {
+                    ex(c, styles, n);
+                    bl(b, styles, n);
+                }
+                if let Some(b) = el {
+                    bl(b, styles, n);
+                }
+            }
+            Expr::Case(sc, arms, el) => {
+                ex(sc, styles, n);
+                for a in arms.iter_mut() {
+                    bl(&mut a.body, styles, n);
+                }
+                if let Some(b) = el {
+                    bl(b, styles, n);
+                }
+            }
+            Expr::Fn(f) => bl(&mut Arc::make_mut(f).body, styles, n),
+            _ => {}
+        }
+    }
+    fn bl(b: &mut Vec<Stmt>, styles: &[CallStyle], n: &mut usize) {
+        for s in b.iter_mut() {
+            match s {
+                Stmt::Def { value, .. } => ex(value, styles, n),
+                Stmt::Assign { target, value, .. } => {
+                    ex(target, styles, n);
+                    ex(value, styles, n);
+                }
+                Stmt::Expr(e) | Stmt::Ret(Some(e)) => ex(e, styles, n),
+                Stmt::Loop(c, b) => {
+                    if let Some(c) = c {
+                        ex(c, styles, n);
+                    }
+                    bl(b, styles, n);
+                }
+                Stmt::Block(b) => bl(b, styles, n),
+                _ => {}
+            }
+        }
+    }
+    for t in p.tops.iter_mut() {
+        if let Top::Def { value, .. } = t {
+            ex(value, styles, &mut n);
+        }
+    }
+    n
 }
